@@ -77,13 +77,14 @@ if the command text parses, `handleGcode(cmd, gcode)` on strings is total as wel
 (`_partial`: the completeness of `REGEX_GCODE_LINE` — it matches at every offset — is checked by
 the `parser` correspondence suite, not yet proved.) -/
 theorem C09_text_partial [OfDecimal α] (cfg : Config) (inch : α) (hinch : inch ≠ 0) (s : FState α)
-    (cmd gcode : Text) (c : Cmd α) (hp : cmdOfText cmd = .ok c) (h : WF s) :
+    (cmd gcode : Text) (c : Cmd α)
+    (hp : cmdOfText cmd (String.ofList (gcode.map upperC)) = .ok c) (h : WF s) :
     ∃ s' r, handleGcodeText cfg inch s cmd gcode = .ok (s', r) ∧ WF s' ∧ Result.Shape r := by
   obtain ⟨h1, h2, h3⟩ := handleGcode_ok cfg inch hinch s (String.ofList (gcode.map upperC)) c h
   exact ⟨_, _, by simp only [handleGcodeText, hp, ok_bind, h1], h2, h3⟩
 
 /-- Non-vacuity over ℝ: the homed initial state meets the hypotheses. -/
-example : WF (handleG28 (FState.reset ([] : List (Region ℝ))) ⟨"G28".toList, []⟩) :=
+example : WF (handleG28 (FState.reset ([] : List (Region ℝ))) { text := "G28".toList, words := [], code := "G28" }) :=
   homed_WF [] _ rfl
 
 end ERP.C09
